@@ -155,6 +155,13 @@ def task_cands(a, env):
         if c not in seen:
             seen.add(c)
             r.dn += 1
+        if got == exp and exp is False:
+            # the same refused string presented again straight away: the verdict is a function of the
+            # arguments, not of what was decoded last
+            got = BL.verdict(C.Verify, pk, msg, c) if target == "sig" else BL.verdict(C.PopVerify, pk, c)
+            r.ev += 1
+            if got != exp:
+                lbl = lbl + " (second presentation)"
         if got != exp:
             cls = lbl.split(":")[0]
             kind = "rejects-honest" if exp else ("accepts-forgery" if got is True else "not-a-bool")
@@ -165,6 +172,68 @@ def task_cands(a, env):
         r.sample({"entry": "Verify" if target == "sig" else "PopVerify", "suite": suite, "sk": a["sk"][:20],
                   "msg": a["msg"][:16], "candidates": len(cands), "labels": [l for l, _ in cands[:12]]})
     return r
+
+
+# ------------------------------------------------------------------ suites with a caller-chosen tag
+TAGS = [b"", b"T", b"a" * 255]
+
+
+def tag_case(suite, ti, sk, which):
+    """a subclass of the stock suite whose domain tag (which="DST") or possession-proof tag
+    (which="POP_TAG") is TAGS[ti]: its signatures are the model's for that tag and for no other"""
+    tag = TAGS[ti]
+    base = BL.suite_cls(suite)
+    C = type("Custom", (base,), {which: tag})
+    msg = b"abc"
+    pk = MB.sk_to_pk(sk)
+    out = []
+    if which == "DST":
+        hm = MB.hashed_message(suite, sk, msg)
+        want = MB.g2_bytes(MB.core_sign_point(sk, hm, tag))
+        stock = MB.sign(suite, sk, msg)
+        got = BL.call(C.Sign, sk, msg)
+        out.append(("Sign under the custom tag", ("ok", want), got))
+        out.append(("Verify(own-tag signature)", True, BL.verdict(C.Verify, pk, msg, want)))
+        out.append(("Verify(stock-tag signature) by the custom suite", False, BL.verdict(C.Verify, pk, msg, stock)))
+        out.append(("Verify(custom-tag signature) by the stock suite", False, BL.verdict(base.Verify, pk, msg, want)))
+        core_s, core_v = getattr(base, "_CoreSign", None), getattr(base, "_CoreVerify", None)
+        if core_s is not None and core_v is not None:
+            # the tag passed explicitly to the core calls of the stock suite
+            out.append(("_CoreSign(tag)", ("ok", want), BL.call(core_s, sk, hm, tag)))
+            out.append(("_CoreVerify(own tag)", True, BL.verdict(core_v, pk, hm, want, tag)))
+            out.append(("_CoreVerify(stock signature, custom tag)", False, BL.verdict(core_v, pk, hm, stock, tag)))
+    else:
+        want = MB.g2_bytes(MB.core_sign_point(sk, pk, tag))
+        stock = MB.pop_prove(sk)
+        out.append(("PopProve under the custom tag", ("ok", want), BL.call(C.PopProve, sk)))
+        out.append(("PopVerify(own-tag proof)", True, BL.verdict(C.PopVerify, pk, want)))
+        out.append(("PopVerify(stock proof) by the custom suite", False, BL.verdict(C.PopVerify, pk, stock)))
+        out.append(("PopVerify(custom-tag proof) by the stock suite", False, BL.verdict(base.PopVerify, pk, want)))
+        out.append(("Verify(message = own pk, custom-tag proof)", False, BL.verdict(C.Verify, pk, pk, want)))
+        out.append(("PopVerify(message signature over own pk)", False, BL.verdict(C.PopVerify, pk, MB.sign("pop", sk, pk))))
+    return out
+
+
+def task_tags(a, env):
+    r = R("caller-chosen-tags")
+    for which, suite in a["cases"]:
+        for ti in range(len(TAGS)):
+            for step, exp, got in tag_case(suite, ti, a["sk"], which):
+                r.ev += 1
+                r.dk.add((which, suite, ti, step))
+                if exp != got:
+                    r.viol("C02:tags:%s:%s:%s" % (suite, which, "empty-tag" if not TAGS[ti] else "nonempty-tag"), ME + ":replay_tags",
+                           {"suite": suite, "ti": ti, "sk": a["sk"], "which": which}, exp, got, note=step)
+                    break
+    r.sample({"subclass": "type('Custom', (G2Basic,), {'DST': b''})"})
+    return r
+
+
+def replay_tags(a):
+    for step, exp, got in tag_case(a["suite"], a["ti"], a["sk"], a["which"]):
+        if exp != got:
+            return {"step": step, "expected": exp, "observed": got}
+    return None
 
 
 def replay(a):
@@ -211,4 +280,6 @@ def run(ctx):
         for lo in range(step):
             tasks.append(("cands", {"target": target, "suite": suite, "sk": hex(sk), "msg": m.hex(),
                                     "flips": flips, "lo": lo, "step": step, "sample": lo == 0 and i % 4 == 0}))
+    for case in (("DST", "basic"), ("DST", "aug"), ("DST", "pop"), ("POP_TAG", "pop")):
+        tasks.append(("tags", {"cases": [case], "sk": 5}))
     ctx.pmap(ME, tasks)
